@@ -405,12 +405,23 @@ def main():
                 kind = "defaultFormat"
             elif re.search(r"\.\s*getMessage\s*\(", hb):
                 kind = "getMessage"
+            elif re.search(r"\b(SetErrorMessage|FormatStdException)\s*\(", hb):
+                kind = "fixedText"
             else:
                 kind = "noMessage"
             rethrows = bool(re.search(r"\bthrow\b", hb))
             hs.append({"cls": cls, "status": status, "listener": listener, "kind": kind, "rethrows": rethrows,
                        "line": tt.count("\n", 0, start) + 1})
         tchains.append((meth, hs))
+    if any(h["kind"] == "fixedText" for _, hs in tchains for h in hs):
+        # SetErrorMessage is only ever called with a non-empty literal; FormatStdException falls back to a literal for an empty what()
+        raw = read(os.path.join(SRC, "XalanTransformer", "XalanTransformer.cpp"))
+        for mm in re.finditer(r"\bSetErrorMessage\(\s*([^,]+),", raw):
+            arg = mm.group(1).strip()
+            if arg.startswith("const char"):
+                continue
+            if not (re.match(r'^"[^"]+"$', arg) or re.match(r"^theMessage == 0 \|\| \*theMessage == '\\0' \? \"[^\"]+\" : theMessage$", arg)):
+                die("SetErrorMessage called with something that is not a non-empty literal: " + arg[:80])
     # call graph of transform overloads and other int-returning methods
     entry_calls = {}
     for m in re.finditer(r"(?m)^XalanTransformer::(\w+)\s*\(", tt):
@@ -553,7 +564,7 @@ def main():
     L.append("/-- classes thrown by the C++ runtime / Xerces-C underneath the library (not by a `throw` in Xalan's own code) -/")
     L.append("def externalClasses : List Cls := [%s]" % ", ".join("." + lean_ident(k) for k in external))
     L.append("")
-    L.append("inductive MsgKind where | defaultFormat | saxParseFormat | domFormat | getMessage | noMessage")
+    L.append("inductive MsgKind where | defaultFormat | saxParseFormat | domFormat | getMessage | fixedText | noMessage")
     L.append("deriving DecidableEq, Repr")
     L.append("")
     L.append("structure Handler where")
